@@ -811,21 +811,11 @@ def run(ctx):
         r6.check(v[0], inst, v[1], v[2], v[3])
     r6.expect_min(1)
     rep.exhaustive_rules.append('C20.6-two-pass-parsers')
-    r5 = rep.rule('C20.5-limit-guards', 'R-SIBLING', 'netstring length parsers guard 10*len with the same bound at all sites; SMTP reply text is capped')
-    sites = []
+    r5 = rep.rule('C20.5-limit-guards', 'R-SIBLING', 'netstring lengths that do not fit (2^32+1, 2^64+1, eleven nines) in any field of a QMTP/QMQP session end the session before the number wraps; SMTP reply text is capped')
     from qv.lib import consistent_values
-    UNI = [0, 1, 1000, 199999999, 200000000, 200000001, 400000000, 429496729, 429496730, 2 ** 31, 2 ** 32 - 1]
-    for unit, fname in (('qmail-qmtpd.c', 'getlen'), ('qmail-qmtpd.c', 'main'), ('qmail-qmqpd.c', 'getlen')):
-        fn = db.fn(unit, fname)
-        for x in fn.all_x():
-            if x.k == 'bin' and x.op == '*' and 10 in (x.args[0].const, x.args[1].const):
-                var = x.args[0] if x.args[1].const == 10 else x.args[1]
-                vk = var.strip().path() or var.strip().src()
-                cv = consistent_values(fn, x, UNI, key=lambda v: v.strip().path() or v.strip().src())
-                allowed = cv.get(vk)
-                sites.append((unit, fname, max(allowed) if allowed else None if allowed is None else -1))
-    r5.check(len(sites) >= 3 and all(b_ is not None and b_ * 10 + 9 < 2 ** 32 for _, _, b_ in sites) and len({b_ for _, _, b_ in sites}) == 1, 'netstring-length-guard-agrees', 'qmail-qmtpd.c/qmail-qmqpd.c',
-             'largest explored length that reaches len*10 (function, value): %s; the multiplication must stay below 2^32 and the three parsers must agree' % sites)
+    from rules import C07 as _c07
+    for inst_, v_ in sorted(_c07.length_overflow_sites(db, rep).items()):
+        r5.check(v_[0], inst_, v_[1], v_[2], v_[3])
     hs = db.unit('qmail-remote.c').macro_int('HUGESMTPTEXT')
     g = db.fn('qmail-remote.c', 'get')
     apps = g.calls('stralloc_append')
@@ -835,6 +825,6 @@ def run(ctx):
         al = cv.get('G:smtptext.len')
         cap = cap and al is not None and max(al or [0]) < hs
     r5.check(cap, 'smtp-reply-text-capped', 'qmail-remote.c:get', 'the reply text kept for the report must stop growing at HUGESMTPTEXT=%s' % hs)
-    r5.expect_min(2)
+    r5.expect_min(3)
     rep.assume('whole-program memory safety is NOT decided; only the listed obligations are',
                'reserve contract: a successful X_readyplus(obj,k) guarantees capacity >= len+k and nothing more')
